@@ -83,6 +83,8 @@ def rs(s: dict, pk: Picker, depth: int) -> dict:
         return [r, {"allOf": [r]}, {"oneOf": [r]}, {"anyOf": [r]}][c]
     if k == "enum":
         base = {"type": "string" if s["base"] == "str" else "integer", "enum": list(s["values"])}
+        if "default" in s and depth == 0:
+            base["default"] = s["default"]   # a component's own default: a reference to it, bare or wrapped, does not take it over
         if s.get("null"):
             c = pk.pick(2, depth)
             if c == 0:
@@ -163,6 +165,8 @@ def cases(draw, tier):
 
     for _, sc in ir["schemas"]:
         mark(sc)
+        if sc["k"] == "enum" and not sc.get("null") and draw(st.booleans()):
+            sc["default"] = sc["values"][0]
     # parameters / responses shared by every operation through components (their schema objects are parsed once per use)
     refable = [n for n, sc in ir["schemas"] if sc["k"] == "enum"]
     ir["shared_params"] = []
